@@ -732,6 +732,7 @@ class Executor:
             env_overrides=env_overrides,
         )
         run.inp_digest = step_hash.inp_digest
+        run.inp_hashes_at_start = dict(result.all_hashes)
         return step_hash, {}
 
     async def _compute_out_step_hash(
@@ -777,6 +778,11 @@ class Executor:
             out_hashes = {rec.path: rec.hash for rec in run.step.out_paths()}
             shell = run.step.uses_shell()
             env_overrides = run.step.get_env_overrides()
+        # An input that was already known when the command started
+        # must still be what it was at that moment.
+        for path, start_hash in run.inp_hashes_at_start.items():
+            if path in inp_hashes:
+                inp_hashes[path] = start_hash
 
         result = await self._run_work_thread(
             run, functools.partial(compute_both_hashes, inp_hashes, out_hashes)
